@@ -339,11 +339,20 @@ Calls(ls) ==
 BogusCalls == {Call("inexact_gradient_step", "bogus", 1, 0, "L1", "-", <<>>, <<1, 1>>, <<1, 2>>),
                Call("inexact_proximal_step", "bogus", 3, 0, "L1", "-", <<>>, <<1, 1>>, <<0, 1>>)}
 Init == /\ st = InitSt(DimP, DimE, 2, 0) /\ prev = InitSt(DimP, DimE, 2, 0) /\ last = <<>> /\ plast = <<>> /\ hist = <<>>
-Next == /\ Len(hist) < Depth
-        /\ \/ \E c \in Calls(last) : LET r == Apply(c, st, last) IN
-                 /\ st' = r.st /\ last' = r.ret /\ prev' = st /\ plast' = last /\ hist' = Append(hist, c)
-           \/ /\ hist = <<>> /\ Depth = 1
-              /\ \E c \in BogusCalls : /\ hist' = <<c>> /\ UNCHANGED <<st, prev, last, plast>>
+Fire(step) ==
+            /\ \E c \in {x \in Calls(last) : x.step = step} : LET r == Apply(c, st, last) IN
+                  /\ st' = r.st /\ last' = r.ret /\ prev' = st /\ plast' = last /\ hist' = Append(hist, c)
+DoProx == Len(hist) < Depth /\ Fire("proximal_step")
+DoInGrad == Len(hist) < Depth /\ Fire("inexact_gradient_step")
+DoInProx == Len(hist) < Depth /\ Fire("inexact_proximal_step")
+DoLine == Len(hist) < Depth /\ Fire("exact_linesearch_step")
+DoBregGrad == Len(hist) < Depth /\ Fire("bregman_gradient_step")
+DoBregProx == Len(hist) < Depth /\ Fire("bregman_proximal_step")
+DoLmo == Len(hist) < Depth /\ Fire("linear_optimization_step")
+DoEpsSub == Len(hist) < Depth /\ Fire("epsilon_subgradient_step")
+DoBogus == /\ hist = <<>> /\ Depth = 1
+           /\ \E c \in BogusCalls : /\ hist' = <<c>> /\ UNCHANGED <<st, prev, last, plast>>
+Next == DoProx \/ DoInGrad \/ DoInProx \/ DoLine \/ DoBregGrad \/ DoBregProx \/ DoLmo \/ DoEpsSub \/ DoBogus
 Spec == Init /\ [][Next]_vars
 \* ---- properties of the model
 Documented == hist = <<>> \/ Bogus(hist[Len(hist)]) \/ DocRel(hist[Len(hist)], prev, st, last, plast)
